@@ -1,15 +1,61 @@
+import re
+
 PROP = {
     "go_test": "TestC16",
-    "level_text": "Kernel-checked theorems (6, closed under the global context, by induction over ALL histories of binds, name transfers/deletions, adds incl. identical re-adds, value/type/expiration updates, deletes by name and by value, purges and blocks): (1) an attribute write under a name, and the name's deletion, is accepted only from the name's current owner (PurgeAttribute called for a name that does not exist is accepted from any account holder and provably changes nothing); (2) an attribute disappears only through its owner's delete / delete-distinct / value update, the owner's deletion or purge of the name, or a block beginning strictly after the expiration currently stored on it; (3) the per-(name, account) counter is never below the number of records, so AccountsByAttribute lists every holder; (4) an attribute whose stored expiration is before the new block time is gone after that block's sweep; (5) the store invariants these rest on (one record per key, every stored expiration has its queue entry, no attribute under an unbound name); (6) the executable checker that each run evaluates on the implementation's observations never fails on the model's own trace (so a prop: failure is a behaviour the model cannot show). The theorems are about the Gallina transcription of the attribute keeper / message server / begin-blocker and of the name module's ownership rules; each run drives the real message handlers and the real BeginBlocker on ~240 (quick) / ~4,000 (thorough) generated histories (~26 steps each), compares accept/reject, every stored attribute (account, name, value, type, expiration), AccountsByAttribute of every name and every name's owner with the model after every step inside Coq, and evaluates the property's own checker on the implementation's observations alone.",
-    "level_note": "Trusted: Coq kernel + vm_compute; the hand transcription Attribute/Attribute.v (tied to the code only by the correspondence run, bounded by its generators: 3 target accounts, 3 names under one restricted root, 3 values, 4 callers one of which has no account, whole-second times); the Go harness' projection; SHA-256 injective on the generated names/values; the sweep's 100000-per-block limit is not modelled; the executable property checker in Corr/C16.v is proved never to fail on model traces (C16_checker_holds_on_model); that it says the same as theorems (1)-(4) on observations is by reading it. No axioms.",
-    "technique": "Coq proof by induction over histories of a Gallina state-machine model (invariants: unique keys, counter >= records, queue covers stored expirations, no attribute under an unbound name) + differential correspondence and property checker evaluated in Coq on histories run through the real message handlers",
-    "coq_files": ["Attribute/Attribute.v", "Proofs/AttributeProofs.v", "Corr/CorrBase.v", "Corr/C16.v", "Proofs/C16CheckerProofs.v"],
-    "rule": "a case is one history (12-41 steps quick) over 3 accounts x 3 names x 3 values: ~29% adds (a third of them re-adding an existing (account,name,value) with another type/expiration), ~9% updates, ~9% expiration updates, ~10% deletes by name / by value, ~10% name bind/transfer/delete, ~2% direct purges, ~24% blocks (half aimed at an expiration ever submitted: one second before, exactly at, one second after); callers are the current owner ~80% of the time, otherwise any of 4 addresses; in 30% of the attribute messages the name is spelled non-canonically (spaces around the whole name, other letter case, spaces next to the dot, or both; deletes with such a spelling come from a non-owner half of the time); a third of the histories open with the directed shape add(e1) -> [purge | delete+rebind name] -> re-add(e2>e1 or none) -> block between e1 and e2; a fixed fifth of the histories (48 in quick) open with the scripted shape add(E) -> re-add of the identical (account,name,value) with the SAME expiration E (another type; or twice; or followed by update-expiration to E; or under a non-canonical spelling) -> block(s) passing E, after which the attribute must be gone (stats: scripted_same_expiration_readd*, readd_identical_same_expiration, same_expiration_readd_then_expired); a history is non-trivial when an identical attribute was re-added with a changed type/expiration, or a block's sweep removed an attribute, or a block crossed a stale queue entry while the attribute stayed alive; distinct = distinct history terms",
-    "assumptions": ["SHA-256 injective on generated names and values (record key = (account, name, value))",
-                    "a name is identified by its normalised form; requests spell it in 5 classes (canonical, outer spaces, letter case, inner spaces, inner spaces + case) and the model transcribes which path normalises and which uses the raw string; values short decimal numerals (valid for JSON/String/Int/Float/Proto/Bytes, invalid for UUID/Uri), value length limit not reached",
+    "level_text": "Kernel-checked theorems (11 + 1 refutation, closed under the global context, by induction over ALL histories of name binds under restricted/unrestricted parents, name transfers and deletions (Name/Name.v's own rules, composed), adds incl. identical re-adds, value/type/expiration updates, deletes by name and by value, direct purges, account-data writes, MaxValueLength updates and blocks with a sweep limit; names are the byte strings as sent, holders account or scope addresses): (1) an attribute write under a name, and the name's deletion, is accepted only from the current owner of the name the spelling normalises to, owner = the address in the name record whose STORED name is that name (PurgeAttribute given a normalised name that has no record is accepted from any account holder and provably changes nothing; SetAccountData writes as the module account owning 'accountdata' or changes nothing); (2) an attribute disappears only through its owner's delete / delete-distinct (spelled as stored) / value update (of exactly that attribute: C16_store_key_identifies_the_name links the store key to the normal form), the owner's deletion or purge of the name, an account-data write on its account, or a block beginning strictly after the expiration currently stored on it; (3) the per-(name key, account) counter is never below the number of records, so AccountsByAttribute / AttributeAccounts list every holder; (4) the gRPC queries Attributes / Attribute (any spelling with the record's key) / Scan return exactly the stored attributes that have not expired and never an expired one, swept or not; (5) an attribute whose stored expiration is before the new block time is gone after that block's sweep PROVIDED no more attributes have expired than the limit (C16_expired_gone_after_sweep), and without the proviso after k blocks once k*limit covers the number expired by then (C16_expired_gone_within_blocks); (6) the store invariants (one record per key, every stored expiration has its queue entry, queue duplicate-free, stored names in normal form; for non-colliding names no attribute under an unbound name); (7) the executable checker that each run evaluates on the implementation's observations never fails on the model's own trace. (1), (2), (6b), (7) carry the hypothesis that the names of the history do not collide under the name module's key; without it they are FALSE of code and model: C16_only_owner_writes_refuted_under_key_collision (vm_compute witness: owner of aa.bbcc writes under the never-bound ccaa.bb, a stranger later deletes it) = C15's known finding seen through attributes, reproduced on the real message router by every run (KNOWN-FINDING name-key-preimage-collision (attribute write)). Each run drives the real message handlers, BeginBlocker / DeleteExpiredAttributes(small limit) and keeper on ~240 (quick) / ~4,000 (thorough) generated histories (~26 steps each) and compares, after every step inside Coq: accept/reject, every stored attribute of every holder, AccountsByAttribute and GetRecordByName of every name, MaxValueLength, and the paged gRPC queries Attributes / Attribute / Scan / AttributeAccounts / AccountData for one holder and one arbitrarily spelled name; and it evaluates the property's own checker (core tags + queries-vs-keeper-dump tags) on the implementation's observations alone.",
+    "level_note": "Trusted: Coq kernel + vm_compute; the hand transcription Attribute/Attribute.v composed with Name/Name.v (tied to the code only by the correspondence run, bounded by its generators: 8 addresses incl. one scope and one session metadata address, 4 attribute names under a restricted and an unrestricted root + the roots + 'accountdata' (+ the colliding pair), 5 values of 2/10/10001 bytes, 6 callers one of which has no account, whole-second times); the Go harness' projection; SHA-256 injective on the attribute store's name keys and values (the NAME module's key is modelled by its pre-image, collisions included); the store order of queue entries and of accountdata attributes is supplied by the harness as ranks computed from the real key bytes; ASCII names; the SDK's FilteredPaginate is exercised (pages followed by key / offset, forwards / reverse, totals) but not modelled beyond 'concatenated pages = listing, every page but the last full'; that the executable checker says the same as theorems (1)-(5) on observations is by reading it. No axioms.",
+    "technique": "Coq proof by induction over histories of a Gallina state-machine model composed with the name-module model (invariants: unique keys, counter >= records, queue covers stored expirations and is duplicate-free, stored names normal, and - for collision-free universes - every attribute name bound to a record of exactly that name) + string lemmas relating the two name keys + differential correspondence and property checker evaluated in Coq on histories run through the real message handlers, keeper and query server",
+    "coq_files": ["Name/Name.v", "Proofs/NameProofs.v", "Attribute/Attribute.v", "Proofs/AttrNameKeyProofs.v", "Proofs/AttributeProofs.v", "Corr/CorrBase.v", "Corr/C16.v", "Proofs/C16CheckerProofs.v"],
+    "rule": "a case is one history (12-41 steps quick; ~6,500 steps per quick run, 59% of the non-block operations accepted) over holders {3 accounts, 1 scope, rarely a session metadata address / an account-less address / the root owner}, names {aa.c16, bb.c16 under a restricted root, aa.open under an unrestricted root, xx.aa.c16, rarely a root or 'accountdata'} and 5 values: ~30% adds (a third of the unscripted ones re-adding an existing (account,name,value) with another type/expiration), ~7% updates, ~8% expiration updates, ~9% deletes by name / by value, ~20% name messages: bind 12% (signer entitled ~85% of the time; restricted and unrestricted parents; owner sometimes account-less), transfer 4% (by owner, governance or a stranger), delete 4%; ~2% direct purges, ~2% account-data writes (message for accounts, keeper for the scope), ~1.5% MaxValueLength updates (by governance or not), ~21% blocks (half aimed at an expiration ever submitted: one second before, exactly at, one second after; a quarter of them through DeleteExpiredAttributes with limit 0..3 instead of the BeginBlocker); callers are the current owner ~80% of the time, otherwise any of 6 addresses; in ~22% of all operations that carry a name (attribute AND name-module messages, and the direct purge) the name is spelled non-canonically (outer white space, other letter case, white space next to a dot, both, or not a valid name at all; then the caller is a non-owner half of the time); every step also queries one holder and one name (a third of the time re-spelled) page by page with limit 1-4 (or 100), by next_key or offset, forwards or reverse, with or without count_total (~840 multi-page listings per quick run); fixed fifths of the histories open with scripted shapes: identical re-add with the SAME expiration (4 variants), more attributes expiring in one block than the sweep limit followed by further small-limit blocks (~85 cut-off sweeps per quick run), the name changing hands (transfer, then deletion and re-binding by a DIFFERENT owner) with the former owner's writes in between, and - otherwise a third of the time - add / purge-or-rebind / re-add / block between the two expirations; a fixed twelfth opens with the key-collision shape (aa.bbcc / ccaa.bb: known finding); a history is non-trivial when an identical attribute was re-added with a changed type/expiration, a block's sweep removed an attribute, a block crossed a stale queue entry while the attribute stayed alive, the limit cut a sweep off, or a new owner wrote after the name changed hands; distinct = distinct history terms",
+    "assumptions": ["SHA-256 injective on the attribute store's name keys (ToLower(TrimSpace(name)), reversed) and on values: record key = (account, that key, value); the name module's key is its pre-image (collisions modelled)",
+                    "names are ASCII byte strings (Name/Name.v); values short decimal numerals without surrounding white space (valid for JSON/String/Int/Float/Proto/Bytes, invalid for UUID/Uri), lengths 2, 10, 10001",
                     "block and expiration times are whole seconds; uint64 counters do not overflow",
-                    "fewer than 100000 queue entries fall due per block (DeleteExpiredAttributes limit not modelled)",
-                    "name ownership is an abstract map; bind is issued by the owner of the restricted parent (accepted iff the name is free); C15 covers the name module itself",
+                    "the sweep limit is an argument of the model (BeginBlocker passes the constant MaxExpiredAttributionCount = 100000, which tests cannot change; smaller limits are exercised through the exported keeper method DeleteExpiredAttributes); 'expired gone after the next block' is proved under #expired <= limit, and after ceil(n/limit) blocks otherwise",
+                    "ownership theorems assume the names of the history do not collide under the name module's key (refuted otherwise: known finding of C15, fingerprint name-key-preimage-collision (attribute write))",
+                    "PurgeAttribute (keeper API, only caller: DeleteName with the normalised name) is judged by the property checker only when given a normalised name; given another letter case by a stranger it wipes the name's attributes (C16_purge_wants_a_normalised_name; modelled and compared, not reachable by a message)",
                     "SDK tx atomicity (a failed handler leaves no writes) is modelled as returning the old state and checked on every rejected step"],
     "claimed": True,
 }
+
+_WRITE_OPS = {"add", "update", "update_expiration", "delete", "delete_distinct"}
+
+
+def _revcat(name):
+    return "".join(seg.strip() for seg in reversed(name.split(".")))
+
+
+def _collide(a, b):
+    return isinstance(a, str) and isinstance(b, str) and a != b and _revcat(a) == _revcat(b)
+
+
+def fingerprint(case, tags):
+    """'name-key-preimage-collision (attribute write)' exactly when the failure is the known one:
+    the first (and only reported) failing step is an ACCEPTED attribute write whose normalised name
+    N is not bound, while the name module resolves N to the record of a different name M with the
+    same reversed, separator-less segment concatenation (C15's collision), the only failing tag is
+    prop:only_owner_writes at that step, and model and implementation agree (no corr: tag).
+    Anything else gets a different fingerprint (and is reported as a VIOLATION)."""
+    other = "other:" + (tags[0] if tags else "none")
+    if not isinstance(case, dict) or case.get("kind") != "history":
+        return other
+    if len(tags) != 1:
+        return other
+    m = re.match(r"^prop:only_owner_writes @step (\d+)$", tags[0])
+    if not m:
+        return other
+    k = int(m.group(1))
+    steps = case.get("steps") or []
+    if not (0 <= k < len(steps)):
+        return other
+    st = steps[k]
+    if st.get("step") != k or st.get("accepted") is not True or st.get("op") not in _WRITE_OPS:
+        return other
+    n, mname = st.get("name_normalised"), st.get("resolves_to_record_named")
+    if not _collide(n, mname):
+        return other
+    # before this step no write went through a foreign record
+    for prev in steps[:k]:
+        if prev.get("accepted") and prev.get("op") in _WRITE_OPS and \
+                prev.get("name_normalised") != prev.get("resolves_to_record_named"):
+            return other
+    return "name-key-preimage-collision (attribute write)"
